@@ -8,8 +8,13 @@
       Body lib                 written by the body of the library itself
       Imported id err msg      the import finished / raised an error
       Probed id obs            obs = <<name, ref, call>> for every name of the universe, in the order probed
+      Reprobed id obs          an importer created EARLIER refers to (some of) its names again, after other importers
+                               have called procedures of the shared libraries: it must see the libraries' current state
+      Assigned id obs          the importer tried to assign imported variables (R7RS: an error, nothing is judged;
+                               recorded, and nothing but End may follow in this process)
       End, Exit rc
-   One verdict line is printed per case: "CASE id ok|rejected|skipped reason", followed by <<"DETAIL", ..>>;
+   One verdict line is printed per Probed / Reprobed event: "CASE id ok|rejected|skipped reason", followed by
+   <<"DETAIL", ..>>; a case is accepted iff none of its verdicts is a rejection.
    "skipped" = the case is not well-formed (R7RS: "it is an error"), its outcome is not judged. *)
 EXTENDS ImportRun, Json, IOUtils
 Meta == ndJsonDeserialize(IOEnv.GRAPH)[1]
@@ -17,8 +22,9 @@ TraceGraph == Meta.libs
 Cases == ndJsonDeserialize(IOEnv.CASES)
 TraceLog == ndJsonDeserialize(IOEnv.TRACE)
 VARIABLES l, seq, cid, flag,
+          live,     \* cases of this process whose import succeeded: their environments stay in use
           req       \* the identifiers every program must have been probed at (constant, computed once)
-tvars == <<rvars, tab, l, seq, cid, flag, req>>
+tvars == <<rvars, tab, l, seq, cid, flag, live, req>>
 Ev == TraceLog[l]
 IsEvent(x) == l <= Len(TraceLog) /\ Ev.e = x /\ l' = l + 1
 Step == Ev.n = seq + 1 /\ seq' = Ev.n
@@ -30,23 +36,66 @@ Required == {x \in GraphNamesG(tab) \cup Rng(Meta.base) \cup
 \* one line "CASE <id> <verdict> <reason>" (TLC wraps long tuples over several lines), then the detail
 Verdict(id, v, reason, detail) == PrintT("CASE " \o ToString(id) \o " " \o v \o " " \o reason) /\ PrintT(<<"DETAIL", detail>>)
 MaxOf(S) == CHOOSE x \in S : \A y \in S : y <= x
-Resync(obs) == [k \in Libs |-> MaxOf({ticks[k]} \cup
-                  {obs[i][3][3] : i \in {j \in DOMAIN obs : Len(obs[j][3]) = 3 /\ obs[j][3][1] = k}})]
+\* after a rejected observation the counters are taken from the record (so that one defect is reported once)
+CallsOf(obs, kind, k) == {obs[i][3][3] : i \in {j \in DOMAIN obs : /\ Len(obs[j][3]) = 3 /\ obs[j][3][1] \in Libs
+                                                                  /\ <<obs[j][3][1], obs[j][3][2]>> \in Bindings
+                                                                  /\ Kind(<<obs[j][3][1], obs[j][3][2]>>) = kind
+                                                                  /\ obs[j][3][1] = k}}
+ResyncT(obs) == [k \in Libs |-> MaxOf({ticks[k]} \cup CallsOf(obs, "tick", k))]
+Tagged(x) == Len(x) = 3 /\ x[1] \in Libs /\ <<x[1], x[2]>> \in Bindings
+ResyncV(obs) == [k \in Libs |-> MaxOf({vers[k]} \cup CallsOf(obs, "bump", k)
+                    \cup {obs[i][3][3] : i \in {j \in DOMAIN obs : /\ Tagged(obs[j][3]) /\ Kind(<<obs[j][3][1], obs[j][3][2]>>) = "relay"
+                                                                   /\ BindInG(tab, obs[j][3][1], Def(<<obs[j][3][1], obs[j][3][2]>>)[3])[1] = k}}
+                    \cup {obs[i][2][3] : i \in {j \in DOMAIN obs : Tagged(obs[j][2]) /\ Kind(<<obs[j][2][1], obs[j][2][2]>>) = "var" /\ obs[j][2][1] = k}})]
+\* a stale copy: the importer read a value the exporter's variable held EARLIER (the location was not shared)
+Stale(vis, n, got) ==
+   /\ n \in DOMAIN vis
+   /\ LET b == vis[n] IN
+      \/ Kind(b) = "var" /\ \E v \in 0..vers[b[1]] : got[1] = Val(b, v)
+      \/ Kind(b) = "rd" /\ LET t == BindInG(tab, b[1], Def(b)[3]) IN \E v \in 0..vers[t[1]] : got[2] = Val(t, v)
+StaleInfo(vis, n, sets) ==
+   LET b == vis[n]
+       t == IF Kind(b) = "rd" THEN BindInG(tab, b[1], Def(b)[3]) ELSE b
+   IN [name |-> n, holds |-> Def(t)[3], via |-> IF Kind(b) = "rd" THEN "library" ELSE "direct",
+       reexported |-> \E i \in DOMAIN sets : n \in DOMAIN NamesG(tab, sets[i]) /\ Base(sets[i]) # b[1],
+       variable |-> t]
+\* judges one batch of observations of the importer with import sets `sets'
+Judge(id, sets, obs, full) ==
+   LET vis == VisibleG(tab, sets)
+       names == [i \in DOMAIN obs |-> obs[i][1]]
+       exp == BatchExpected(vis, ticks, vers, names)
+       bad == {i \in DOMAIN obs : <<obs[i][2], obs[i][3]>> # exp[i]}
+       pass == IF full THEN "first" ELSE "again"
+   IN IF ~NoDup(names) \/ (full /\ ~(req \subseteq Rng(names)))
+        THEN Verdict(id, "rejected", "incomplete", req \ Rng(names)) /\ ticks' = ResyncT(obs) /\ vers' = ResyncV(obs)
+      ELSE IF bad # {}
+        THEN LET i == CHOOSE i \in bad : \A j \in bad : i <= j
+                 got == <<obs[i][2], obs[i][3]>>
+             IN /\ IF Stale(vis, obs[i][1], got)
+                     THEN Verdict(id, "rejected", "aliasing", [info |-> StaleInfo(vis, obs[i][1], sets), got |-> got, expected |-> exp[i], pass |-> pass, nbad |-> Cardinality(bad)])
+                     ELSE Verdict(id, "rejected", "visibility", [name |-> obs[i][1], got |-> got, expected |-> exp[i], pass |-> pass, nbad |-> Cardinality(bad)])
+                /\ ticks' = ResyncT(obs) /\ vers' = ResyncV(obs)
+      ELSE /\ Verdict(id, "ok", pass, <<Cardinality(DOMAIN vis), {Kind(vis[n]) : n \in DOMAIN vis},
+                                       {Def(vis[n])[3] : n \in {m \in DOMAIN vis : Kind(vis[m]) = "var"}},
+                                       Cardinality({i \in DOMAIN obs : obs[i][1] \in DOMAIN vis /\ Kind(vis[obs[i][1]]) = "var"
+                                                                        /\ vers[vis[obs[i][1]][1]] > 0})>>)   \* reads of variables assigned since their library was loaded
+           /\ ticks' = BatchCount(vis, ticks, "tick", names, Len(names))
+           /\ vers' = BatchCount(vis, vers, "ver", names, Len(names))
 
 TStart == /\ IsEvent("Start") /\ phase = "off"
-          /\ inst' = [k \in Libs |-> 0] /\ ticks' = [k \in Libs |-> 0] /\ phase' = "idle"
-          /\ seq' = Ev.n /\ cur' = <<>> /\ cid' = 0 /\ flag' = FALSE
+          /\ inst' = [k \in Libs |-> 0] /\ ticks' = [k \in Libs |-> 0] /\ vers' = [k \in Libs |-> 0] /\ phase' = "idle"
+          /\ seq' = Ev.n /\ cur' = <<>> /\ cid' = 0 /\ flag' = FALSE /\ live' = {}
 TImport == /\ IsEvent("Import") /\ phase = "idle" /\ Step /\ Ev.id \in DOMAIN Cases
            /\ phase' = "loading" /\ cur' = Cases[Ev.id].sets /\ cid' = Ev.id /\ flag' = FALSE
-           /\ UNCHANGED <<inst, ticks>>
+           /\ UNCHANGED <<inst, ticks, vers, live>>
 \* a body evaluated twice, out of order, or of a library nobody asked for taints the case
 TBody == /\ IsEvent("Body") /\ phase = "loading" /\ Ev.lib \in Libs
          /\ inst' = [inst EXCEPT ![Ev.lib] = @ + 1]
          /\ flag' = (flag \/ ~BodyOK(Ev.lib))
-         /\ UNCHANGED <<ticks, phase, cur, seq, cid>>
+         /\ UNCHANGED <<ticks, vers, phase, cur, seq, cid, live>>
 TImported ==
    /\ IsEvent("Imported") /\ phase = "loading" /\ Step /\ Ev.id = cid
-   /\ UNCHANGED <<inst, ticks, cur, cid>>
+   /\ UNCHANGED <<inst, ticks, vers, cur, cid, live>>
    /\ IF ~CaseWF(cid)
         THEN /\ Verdict(cid, "skipped", "not-wellformed", Ev.err)
              /\ phase' = (IF Ev.err = 0 THEN "unjudged" ELSE "idle") /\ flag' = (Ev.err # 0)
@@ -60,29 +109,26 @@ TImported ==
 TProbed ==
    /\ IsEvent("Probed") /\ phase \in {"ready", "unjudged"} /\ Step /\ Ev.id = cid
    /\ phase' = "idle" /\ UNCHANGED <<inst, cur, cid, flag>>
-   /\ IF phase = "unjudged" THEN ticks' = Resync(Ev.obs)
-      ELSE LET obs == Ev.obs
-               vis == Vis
-               names == [i \in DOMAIN obs |-> obs[i][1]]
-               exp == BatchExpected(vis, ticks, names)
-               bad == {i \in DOMAIN obs : <<obs[i][2], obs[i][3]>> # exp[i]}
-           IN IF ~(NoDup(names) /\ req \subseteq Rng(names))
-                THEN Verdict(cid, "rejected", "incomplete", req \ Rng(names)) /\ ticks' = Resync(obs)
-              ELSE IF bad # {}
-                THEN LET i == CHOOSE i \in bad : \A j \in bad : i <= j
-                     IN Verdict(cid, "rejected", "visibility", [name |-> obs[i][1], got |-> <<obs[i][2], obs[i][3]>>, expected |-> exp[i], nbad |-> Cardinality(bad)])
-                        /\ ticks' = Resync(obs)
-              ELSE /\ Verdict(cid, "ok", "-", <<Cardinality(DOMAIN vis), {Kind(vis[n]) : n \in DOMAIN vis}>>)
-                   /\ ticks' = BatchTicks(vis, ticks, names, Len(names))
-TEnd == /\ IsEvent("End") /\ phase = "idle" /\ Step /\ phase' = "ended" /\ UNCHANGED <<inst, ticks, cur, cid, flag>>
+   /\ IF phase = "unjudged" THEN ticks' = ResyncT(Ev.obs) /\ vers' = ResyncV(Ev.obs) /\ UNCHANGED live
+      ELSE Judge(cid, cur, Ev.obs, TRUE) /\ live' = live \cup {cid}
+\* an importer created earlier is used again
+TReprobed ==
+   /\ IsEvent("Reprobed") /\ phase = "idle" /\ Step
+   /\ UNCHANGED <<inst, cur, cid, flag, phase, live>>
+   /\ IF Ev.id \in live THEN Judge(Ev.id, Cases[Ev.id].sets, Ev.obs, FALSE)
+      ELSE ticks' = ResyncT(Ev.obs) /\ vers' = ResyncV(Ev.obs)
+\* R7RS 5.2: "it is an error to ... mutate an imported binding": recorded, not judged; the process must end here
+TAssigned == /\ IsEvent("Assigned") /\ phase = "idle" /\ Step /\ phase' = "closing"
+             /\ UNCHANGED <<inst, ticks, vers, cur, cid, flag, live>>
+TEnd == /\ IsEvent("End") /\ phase \in {"idle", "closing"} /\ Step /\ phase' = "ended" /\ UNCHANGED <<inst, ticks, vers, cur, cid, flag, live>>
 \* a process may die only of the import error of its first import (program path); that case has been rejected above
 TExit == /\ IsEvent("Exit") /\ ((phase = "ended" /\ Ev.rc = 0) \/ (phase = "idle" /\ flag /\ seq = 3))
-         /\ phase' = "off" /\ UNCHANGED <<inst, ticks, cur, cid, flag, seq>>
+         /\ phase' = "off" /\ UNCHANGED <<inst, ticks, vers, cur, cid, flag, seq, live>>
 
 TraceInit == /\ tab = ExpTab /\ req = Required
-             /\ l = 1 /\ seq = 0 /\ cid = 0 /\ flag = FALSE /\ phase = "off" /\ cur = <<>>
-             /\ inst = [k \in Libs |-> 0] /\ ticks = [k \in Libs |-> 0]
-TraceNext == TStart \/ TImport \/ TBody \/ TImported \/ TProbed \/ TEnd \/ TExit
+             /\ l = 1 /\ seq = 0 /\ cid = 0 /\ flag = FALSE /\ phase = "off" /\ cur = <<>> /\ live = {}
+             /\ inst = [k \in Libs |-> 0] /\ ticks = [k \in Libs |-> 0] /\ vers = [k \in Libs |-> 0]
+TraceNext == TStart \/ TImport \/ TBody \/ TImported \/ TProbed \/ TReprobed \/ TAssigned \/ TEnd \/ TExit
 TraceSpec == TraceInit /\ [][TraceNext /\ UNCHANGED <<tab, req>>]_tvars
 Accepted == LET n == TLCGet("stats").diameter IN
             IF n - 1 = Len(TraceLog) /\ GraphWF THEN TRUE
